@@ -159,10 +159,8 @@ def check_while(ctx, f, nd, i):
             continue
         if atom[1] == '<' and atom[2][0] == 'v':
             variant = ('lt', atom[2][1], atom[3])
-        elif atom[1] == '>' and atom[3][0] == 'v' and atom[2][0] != 'c':
-            variant = ('lt', atom[3][1], atom[2])
-        elif atom[1] == '>' and atom[2][0] == 'v' and atom[3] == ('c', 0):
-            variant = ('gt0', atom[2][1], None)
+        if atom[1] == '<' and atom[2] == ('c', 0) and atom[3][0] == 'v':
+            variant = ('gt0', atom[3][1], None)
     for atom, pol in atoms:
         if atom[0] == 'cmp' and atom[1] == '==' and not pol and atom[2][0] == 'v' and atom[3] == ('c', '0'):
             variant = ('str0', atom[2][1], None)
